@@ -1,4 +1,5 @@
 import Memterm.Props.C14
+import Memterm.Proofs.SparseStep
 import Memterm.Spec.C16
 
 /-
@@ -278,6 +279,13 @@ example :
     display env s1 = [[101, 102], [105, 106]] ∧
     display env s2 = [[101, 102, 32, 32], [105, 106, 32, 32], [32, 32, 32, 32]] := by
   decide
+
+/-! #### the sparse layer -/
+
+/-- `resize` on the HashMap buffer (rows re-keyed by the DL loop, per-row removal of the cut columns)
+    observes as the dense crop / extend -/
+theorem sparse_resize (ss : Sparse.SScreen) (l c : Option Nat) :
+    Sparse.abs (Sparse.resize ss l c) = resize (Sparse.abs ss) l c := Sparse.abs_resize ss l c
 
 end C16
 end Memterm
